@@ -6,6 +6,7 @@ import (
 	"strconv"
 
 	corev1 "k8s.io/api/core/v1"
+	metav1 "k8s.io/apimachinery/pkg/apis/meta/v1"
 
 	datadoghqv1alpha1 "github.com/DataDog/extendeddaemonset/api/v1alpha1"
 	"github.com/DataDog/extendeddaemonset/zzverif/fakeapi"
@@ -224,4 +225,45 @@ func ZZ_C04_roles() {
 	nondet.Reach("C04.active.removes-label", role == "active" && c.Count("patch", "Pod") >= 1)
 	nondet.Reach("C04.canary.adds-label", role == "canary" && c.Count("patch", "Pod") >= 1)
 	nondet.Reach("C04.unknown", role == "unknown" && nPods >= 1)
+}
+
+// ZZ_C04_labelAfterPromotion: "Pods of the canary replica set ... lose [the canary label] once
+// the replica set has become active" — also when the promotion happens while the rolling update
+// is paused or the rollout frozen, and whether or not the Active condition was recorded before.
+func ZZ_C04_labelAfterPromotion() {
+	c, ds, rsNew, _ := zzStore(2)
+	ds.Spec.Strategy.Canary = &datadoghqv1alpha1.ExtendedDaemonSetSpecStrategyCanary{}
+	datadoghqv1alpha1.DefaultExtendedDaemonSetSpec(&ds.Spec, datadoghqv1alpha1.ExtendedDaemonSetSpecStrategyCanaryValidationModeAuto)
+	ds.Status.ActiveReplicaSet = rsNew.Name // just promoted
+	ds.Status.Canary = nil
+	ann := nondet.String("annotation", "none", "rolling-update-paused", "rollout-frozen", "both")
+	if ann == "rolling-update-paused" || ann == "both" {
+		ds.Annotations[datadoghqv1alpha1.ExtendedDaemonSetRollingUpdatePausedAnnotationKey] = "true"
+	}
+	if ann == "rollout-frozen" || ann == "both" {
+		ds.Annotations[datadoghqv1alpha1.ExtendedDaemonSetRolloutFrozenAnnotationKey] = "true"
+	}
+	// the former canary pod on node0 still carries the label; node1 runs the old template
+	p := zzPod("canary-pod", zzNodeName(0), zzRSName, zzHashNew, 0, corev1.PodRunning, true, nondet.Base().Add(-600*1e9))
+	p.Labels[datadoghqv1alpha1.ExtendedDaemonSetReplicaSetCanaryLabelKey] = datadoghqv1alpha1.ExtendedDaemonSetReplicaSetCanaryLabelValue
+	c.Pods = append(c.Pods, p)
+	c.Pods = append(c.Pods, zzPod("old-pod", zzNodeName(1), zzOldRS, zzHashOld, 0, corev1.PodRunning, true, nondet.Base().Add(-3600*1e9)))
+	// conditions left by the syncs of the canary phase
+	if nondet.Bool("canaryConditionsRecorded") {
+		at := metav1.NewTime(nondet.Base().Add(-600 * 1e9))
+		rsNew.Status.Conditions = append(rsNew.Status.Conditions,
+			datadoghqv1alpha1.ExtendedDaemonSetReplicaSetCondition{Type: datadoghqv1alpha1.ConditionTypeCanary, Status: corev1.ConditionTrue, LastTransitionTime: at, LastUpdateTime: at},
+			datadoghqv1alpha1.ExtendedDaemonSetReplicaSetCondition{Type: datadoghqv1alpha1.ConditionTypeActive, Status: corev1.ConditionFalse, LastTransitionTime: at, LastUpdateTime: at})
+	}
+	_, err := zzReconcile(zzReconciler(c, false), zzNS, zzRSName)
+	nondet.Assert("C04.promoted.noerror", err == nil)
+	labelled := false
+	for _, q := range c.Pods {
+		if q.Name == "canary-pod" {
+			_, labelled = q.Labels[datadoghqv1alpha1.ExtendedDaemonSetReplicaSetCanaryLabelKey]
+		}
+	}
+	nondet.Assert("C04.promoted.label-removed", !labelled)
+	nondet.Observe("labelled", labelled)
+	nondet.Reach("C04.promoted.while-frozen", ann == "rollout-frozen")
 }
